@@ -63,7 +63,8 @@ type ArchiveDecoder struct {
 	d     FormatDecoder
 	dir   string
 	last  interface{}
-	depth int // number of directories that haven't been closed with a goodbye
+	depth int  // number of directories that haven't been closed with a goodbye
+	root  bool // the first entry, the one without a name, has been seen
 }
 
 // NewArchiveDecoder initializes a decoder for a catar archive.
@@ -170,6 +171,18 @@ loop:
 		default:
 			return nil, fmt.Errorf("unsupported element %s in archive", reflect.TypeOf(d))
 		}
+	}
+
+	// Only the first entry, the root of the archive, has no name. All others
+	// are listed in a directory that is still open. Anything else would place
+	// entries relative to whatever the root entry made of the destination.
+	if name == "" {
+		if a.root {
+			return nil, InvalidFormat{"entry without a name"}
+		}
+		a.root = true
+	} else if a.depth == 0 {
+		return nil, InvalidFormat{fmt.Sprintf("entry '%s' outside of a directory", name)}
 	}
 
 	// If it doesn't have a payload or is a device/symlink, it must be a directory
